@@ -66,7 +66,7 @@ import traceback
 # ------------------------------------------------------------------ selections
 
 def selections(src, max_run=4):
-    """[dict(start, until, func, kinds, depth, n, ends_return)] for every run of whole sibling statements"""
+    """[dict(start, until, func, kinds, depth, n, ends_return, closure)] for every run of whole sibling statements"""
     import parso
     mod = parso.parse(src)
     out = []
@@ -104,6 +104,34 @@ def selections(src, max_run=4):
             leaf = leaf.get_next_leaf()
         return found
 
+    def name_leaves(node, in_scope_body, out):
+        """(value, is_definition, inside the body of a nested def / lambda) of every name leaf"""
+        ch = getattr(node, 'children', None)
+        if ch is None:
+            if node.type == 'name':
+                out.append((node.value, node.is_definition(), in_scope_body))
+            return
+        if node.type == 'trailer' and ch[0] == '.':
+            return
+        for k, c in enumerate(ch):
+            name_leaves(c, in_scope_body or (node.type in ('funcdef', 'lambdef') and k == len(ch) - 1), out)
+
+    def closure_feed(run, later):
+        """does the run bind a name that a nested def / lambda of a LATER sibling reads from its body (a free
+        variable of a closure)?  'only': some such name has no other read behind the run; 'also'; None"""
+        bound = []
+        for st in run:
+            name_leaves(st, False, bound)
+        bound = {v for v, d, inner in bound if d and not inner}
+        uses = []
+        for st in later:
+            name_leaves(st, False, uses)
+        inner = {v for v, d, i in uses if not d and i} & bound
+        if not inner:
+            return None
+        direct = {v for v, d, i in uses if not d and not i}
+        return 'only' if inner - direct else 'also'
+
     def suites(node, depth, func):
         for c in getattr(node, 'children', []):
             if c.type == 'suite':
@@ -122,6 +150,7 @@ def selections(src, max_run=4):
                                     'kinds': ks, 'depth': depth, 'n': j - i + 1,
                                     'inside': inside_words(ss[i:j + 1]),
                                     'ends_return': ks[-1] == 'return',
+                                    'closure': closure_feed(ss[i:j + 1], ss[j + 1:]),
                                     'last': j == len(ss) - 1})
                 suites(c, depth + 1, func)
             elif c.type in ('funcdef', 'classdef'):
@@ -662,7 +691,7 @@ def failing_statement(src, facts, new_code, lineno, new_name):
     return best
 
 
-_NAME_IN_MSG = re.compile(r"(?:local variable|name) '([^']+)'")
+_NAME_IN_MSG = re.compile(r"(?:local variable|free variable|name) '([^']+)'")
 
 
 def failure_name(outcome):
@@ -789,6 +818,9 @@ def pick_selections(rng, sels, k):
                     w += 3.0        # a nested block whose run has a jump behind a loop
         if 'def' in ins or 'lambda' in ins or 'class' in ins:
             w += 1.0
+        if s.get('closure'):
+            # the run binds a free variable of a closure that is defined behind it
+            w += 6.0 if s['closure'] == 'only' else 3.0
         if s['depth'] > 0:
             w += 1.0
         if s['n'] > 1:
